@@ -9,6 +9,13 @@ from admin, non-admin and unverified connections are run
   * on the Lean model (lean/HapModel/PairState.lean, driver Drivers/C06.lean),
 and the answers, the three State maps and the saved file are diffed after every request.
 The oracle (harness/ref/pairings.py) judges the real behaviour against the statement of C06.
+
+A second stream establishes its sessions by REAL pair-verify exchanges through the real handler
+(reference controller harness/ref/c14_pairverify.py): honest exchanges, dishonest ones (bogus /
+foreign / wrong-material / missing proof, wrong outer key, unknown or missing identifier) on fresh
+and on already verified connections, then POST /pairings on those connections. Oracle: a request
+is served only if the controller that last PROVED its identity on that connection is admin now.
+Model: `sstep` (session facts written only by a proving exchange; ideal signatures).
 """
 from __future__ import annotations
 
@@ -22,6 +29,7 @@ import uuid as uuidlib
 from typing import Any, Dict, List, Optional
 
 from common import Ctx, delta_min, hx, run_model_parallel
+from ref import c14_pairverify as refpv
 from ref import pairings as refp
 from ref import tlv8 as reftlv
 
@@ -36,7 +44,11 @@ TRUSTED = [
     "TLV request decoding / answer encoding reuse the C07 model (lean/HapModel/Tlv.lean)",
     "harness/ref/pairings.py + harness/ref/tlv8.py (oracle: abstract pairing list advanced by the answers, "
     "independent TLV8 list decoder); harness generators",
-    "connections are HAPServerHandler objects with is_encrypted/client_uuid set directly (pair-verify itself is C02); "
+    "first stream: connections are HAPServerHandler objects with is_encrypted/client_uuid set directly; second stream: "
+    "sessions come from real pair-verify exchanges on real handlers (one handler = one connection; the transport "
+    "encryption of an upgraded connection is C04/C05's concern and not applied); in the model one exchange is one step and "
+    "cryptography is ideal (outer layer opens iff sealed with the exchange key; a proof verifies under K iff made with "
+    "K's private key over the exchange material) -- the cryptographic fact behind C02, taken as the shape of the attempt; "
     "driver.async_persist replaced by a synchronous driver.persist",
 ]
 
@@ -75,7 +87,7 @@ class Real:
 
     _n = 0
 
-    def __init__(self):
+    def __init__(self, with_accessory: bool = False):
         from pyhap.accessory_driver import AccessoryDriver
 
         _quiet()
@@ -93,6 +105,10 @@ class Real:
 
         self.driver.async_persist = sync_persist
         self.state = self.driver.state
+        if with_accessory:  # pair-verify's log line for an unknown controller names the accessory
+            from pyhap.accessory import Accessory
+
+            self.driver.add_accessory(Accessory(self.driver, "Verif"))
 
     def close(self):
         try:
@@ -137,6 +153,7 @@ class Real:
         def post(path: str, body: bytes):
             req = h11.Request(method="POST", target=path, headers=[("Host", "hap"), ("Content-Length", str(len(body)))])
             r = h.dispatch(req, body)
+            post.pairing_changed = bool(r.pairing_changed)
             return r.status_code, bytes(r.body)
 
         return post, h
@@ -550,6 +567,269 @@ def parse_table(ops) -> Dict[str, Optional[str]]:
     return tbl
 
 
+
+# ----------------------------------------------------------------------------- real sessions
+#
+# Histories whose sessions are established by REAL pair-verify exchanges through the real handler
+# (reference controller: harness/ref/c14_pairverify.py), including dishonest exchanges on an
+# already verified connection. The oracle's notion of "who the connection is" is the controller
+# that last PROVED its identity there (a signature the harness really made with the key that is
+# registered for the claimed controller, accepted by the accessory).
+
+
+def ctrl_pub(seed_hex: str) -> bytes:
+    return refpv.controller_key(bytes.fromhex(seed_hex))[1]
+
+
+def s_setup(idb: bytes, seed: bytes):
+    return {"k": "setup", "id": hx(idb), "seed": hx(seed)}
+
+
+def s_verify(c: int, idb: Optional[bytes], seed: bytes, proof: str = "sign", outer_ok: bool = True):
+    return {"k": "verify", "c": c, "id": hx(idb) if idb is not None else None, "seed": hx(seed), "proof": proof, "outer_ok": outer_ok}
+
+
+def s_req(c: int, body: str):
+    return {"k": "req", "c": c, "body": body}
+
+
+def run_real_sessions(ops: List[Dict[str, Any]], judge: bool = True):
+    """Run one session history on the real code. Returns (ident, steps, verdict, abstained)."""
+    real = Real(with_accessory=True)
+    try:
+        ident = real.ident()
+        acc_id, acc_ltpk = real.state.mac.encode(), bytes.fromhex(ident["public_key"])
+        conns: Dict[int, Any] = {}
+        proved: Dict[int, Optional[int]] = {}
+        steps = []
+        ref: Optional[refp.RefPairings] = refp.RefPairings()
+        v = Verdict()
+
+        def conn(c):
+            if c not in conns:
+                conns[c] = real.connection()
+            return conns[c]
+
+        def sess(h):
+            return {"enc": bool(h.is_encrypted), "cu": str(h.client_uuid.int) if h.client_uuid is not None else None}
+
+        for i, op in enumerate(ops):
+            before = real.snapshot()
+            calls0 = real.persist_calls
+            if op["k"] == "setup":
+                key = ctrl_pub(op["seed"])
+                try:
+                    real.driver.pair(bytes.fromhex(op["id"]), key, b"\x01")
+                    code = 200
+                except Exception:  # noqa: BLE001
+                    code = 500
+                after = real.snapshot()
+                steps.append({"resp": {"code": code}, "state": after, "wrote": real.persist_calls > calls0})
+                if judge and ref is not None and v.sig is None:
+                    ref = judge_step(v, ref, i, {"k": "setup", "id": op["id"], "key": hx(key)}, before, after, code, b"")
+            elif op["k"] == "verify":
+                post, h = conn(op["c"])
+                idb = bytes.fromhex(op["id"]) if op["id"] is not None else None
+                try:
+                    res = refpv.pair_verify_ex(lambda b: post("/pair-verify", b), idb, bytes.fromhex(op["seed"]), acc_ltpk, acc_id,
+                                               proof=op["proof"], outer_ok=op["outer_ok"])
+                except Exception as ex:  # noqa: BLE001
+                    res = "controller error " + type(ex).__name__
+                after = real.snapshot()
+                steps.append({"verified": res == "verified", "sess": sess(h), "state": after})
+                if judge and ref is not None:
+                    u = parse_id(idb) if idb is not None else None
+                    proves = (op["proof"] == "sign" and op["outer_ok"] and u is not None and u in ref.entries
+                              and ref.entries[u][1] == ctrl_pub(op["seed"]))
+                    if res == "verified" and proves:
+                        proved[op["c"]] = u
+                    if pairing_set(after) != pairing_set(before):
+                        v.fail("C06:pairings-differ-from-history", "a pair-verify exchange changed the set of pairings", i)
+            else:
+                post, h = conn(op["c"])
+                code, body = post("/pairings", bytes.fromhex(op["body"]))
+                after = real.snapshot()
+                wrote = real.persist_calls > calls0
+                resp = {"code": 200, "body": hx(body), "pc": post.pairing_changed} if code == 200 else {"code": code}
+                steps.append({"resp": resp, "state": after, "wrote": wrote, "doc": real.file_doc() if wrote else None, "sess": sess(h)})
+                if judge and ref is not None and v.sig is None:
+                    who = proved.get(op["c"])
+                    synth = {"k": "req", "enc": who is not None, "cu": str(who) if who is not None else None, "body": op["body"]}
+                    ref = judge_step(v, ref, i, synth, before, after, code, body)
+        if v.sig == "C06:served-without-admin":
+            v.desc += " (sessions from real pair-verify exchanges; identity = the controller that last proved itself on the connection)"
+        return ident, steps, v, ref is None
+    finally:
+        real.close()
+
+
+def sessions_model_line(ops, ident):
+    mops, tbl = [], {}
+
+    def note(b: bytes):
+        u = parse_id(b)
+        tbl[hx(b)] = str(u) if u is not None else None
+
+    for op in ops:
+        if op["k"] == "setup":
+            mops.append({"k": "setup", "id": op["id"], "key": hx(ctrl_pub(op["seed"]))})
+            note(bytes.fromhex(op["id"]))
+        elif op["k"] == "verify":
+            mops.append({"k": "verify", "c": op["c"], "outer_ok": op["outer_ok"], "id": op["id"],
+                         "signer": hx(ctrl_pub(op["seed"])) if op["proof"] == "sign" else None})
+            if op["id"] is not None:
+                note(bytes.fromhex(op["id"]))
+        else:
+            mops.append(op)
+            it = lenient_items(bytes.fromhex(op["body"]))
+            if refp.T_USER in it:
+                note(it[refp.T_USER])
+    return {"layer": "pairstate", "op": "sessions", "ident": ident, "parse": tbl, "ops": mops}
+
+
+DISHONEST = [("garbage", True), ("foreign", True), ("wrong-material", True), ("missing", True), ("sign", False), ("garbage", False)]
+
+
+def _ctrl(rng, how=None):
+    u = rng.getrandbits(128)
+    return {"u": u, "id": spell(rng, u, how), "seed": key_of(rng)}
+
+
+def dishonest(c: int, claimed: Optional[Dict[str, Any]], me: Dict[str, Any], mode):
+    """A pair-verify exchange on connection `c` that claims `claimed` but cannot prove it. "foreign":
+    a perfectly good signature, made with the caller's own key."""
+    proof, outer_ok = mode
+    idb = claimed["id"] if claimed is not None else None
+    return s_verify(c, idb, me["seed"], "sign" if proof == "foreign" else proof, outer_ok)
+
+
+def session_boundary_scripts(ctx: Ctx):
+    rng = ctx.rng
+    out = []
+    A, B, C, X = _ctrl(rng, 1), _ctrl(rng, 1), _ctrl(rng, 0), _ctrl(rng, 1)
+    base = [s_setup(A["id"], A["seed"]), s_verify(0, A["id"], A["seed"]),
+            s_req(0, add_body(B["id"], ctrl_pub(hx(B["seed"])), b"\x00")),
+            s_req(0, add_body(C["id"], ctrl_pub(hx(C["seed"])), b"\x00")),
+            s_verify(1, B["id"], B["seed"])]
+    followups = [LIST_BODY, add_body(B["id"], ctrl_pub(hx(B["seed"])), b"\x01"), remove_body(A["id"])]
+    for mode in DISHONEST:
+        for claimed in (A, C, X, None):
+            for fu in followups:
+                # verified as non-admin B, then a failing exchange naming someone else on the same connection
+                out.append(base + [dishonest(1, claimed, B, mode), s_req(1, fu), s_req(0, LIST_BODY)])
+        # the same on a fresh connection, and on the admin's own connection (which must keep working)
+        out.append(base + [dishonest(2, A, B, mode), s_req(2, LIST_BODY), s_req(2, followups[1])])
+        out.append(base + [dishonest(0, B, A, mode), s_req(0, LIST_BODY), dishonest(0, X, A, mode), s_req(0, followups[1]), s_req(0, LIST_BODY)])
+    # honest re-verify as another controller; removal / demotion while the session is open
+    out.append(base + [s_verify(1, A["id"], A["seed"]), s_req(1, LIST_BODY), s_verify(1, B["id"], B["seed"]), s_req(1, LIST_BODY)])
+    out.append(base + [s_req(0, add_body(B["id"], ctrl_pub(hx(B["seed"])), b"\x01")), s_req(1, LIST_BODY),
+                       s_req(0, remove_body(B["id"])), s_req(1, LIST_BODY), dishonest(1, A, B, DISHONEST[0]), s_req(1, LIST_BODY)])
+    out.append(base + [s_req(0, add_body(B["id"], ctrl_pub(hx(B["seed"])), b"\x03")), s_req(1, followups[2]), s_req(1, LIST_BODY), s_req(0, LIST_BODY)])
+    out.append([s_verify(0, A["id"], A["seed"]), s_req(0, LIST_BODY)] + base[:2] + [s_req(0, LIST_BODY)])  # nothing paired yet
+    return out
+
+
+def random_session_script(ctx: Ctx):
+    rng = ctx.rng
+    cs = [_ctrl(rng) for _ in range(rng.choice([2, 3, 3, 4]))]
+    X = _ctrl(rng)
+    ops = [s_setup(cs[0]["id"], cs[0]["seed"]), s_verify(0, cs[0]["id"], cs[0]["seed"])]
+    for k, c in enumerate(cs[1:], 1):
+        ops.append(s_req(0, add_body(c["id"], ctrl_pub(hx(c["seed"])), bytes([rng.choice([0, 0, 0, 1, 2, 3])]))))
+    owner: Dict[int, Dict[str, Any]] = {0: cs[0]}
+    for _ in range(rng.randrange(4, 13)):
+        r = rng.random()
+        c = rng.randrange(0, 4)
+        me = owner.get(c) or rng.choice(cs)
+        if r < 0.22:
+            ops.append(s_verify(c, me["id"], me["seed"]))
+            owner[c] = me
+        elif r < 0.50:
+            claimed = rng.choice(cs + [X, None]) if rng.random() < 0.8 else cs[0]
+            ops.append(dishonest(c, claimed, me, rng.choice(DISHONEST)))
+        elif r < 0.70:
+            ops.append(s_req(c, LIST_BODY))
+        elif r < 0.88:
+            t = rng.choice(cs)
+            ops.append(s_req(c, add_body(t["id"], ctrl_pub(hx(t["seed"])), bytes([rng.choice([0, 1, 1, 2, 3])]) if rng.random() < 0.9 else b"")))
+        else:
+            t = rng.choice(cs[1:] + [X]) if rng.random() < 0.8 else cs[0]
+            ops.append(s_req(c, remove_body(t["id"])))
+    for c in sorted(owner):
+        ops.append(s_req(c, LIST_BODY))
+    return ops
+
+
+def record_session_failure(ctx: Ctx, ops, v: Verdict):
+    cut = ops[: v.at + 1]
+
+    def still(cand):
+        try:
+            return run_real_sessions(cand)[2].sig == v.sig
+        except Exception:  # noqa: BLE001
+            return False
+
+    small = delta_min(cut, still)
+    v2 = run_real_sessions(small)[2]
+    desc = v2.desc if v2.sig == v.sig else v.desc
+    ctx.fail(v.sig, f"{desc} [history of {len(small)} step(s) incl. pair-verify exchanges]", {"kind": "sessions", "ops": small, "signature": v.sig})
+
+
+def run_sessions(ctx: Ctx):
+    st = ctx.stats
+    scripts = session_boundary_scripts(ctx)
+    nb = len(scripts)
+    for _ in range(ctx.n(160, 3000)):
+        scripts.append(random_session_script(ctx))
+    st.notes.append(f"session stream: {nb} deterministic + {len(scripts) - nb} random histories with real pair-verify exchanges "
+                    "(honest, and dishonest ones on fresh and on already verified connections)")
+    lines, impl = [], []
+    for ops in scripts:
+        ident, steps, v, abstained = run_real_sessions(ops)
+        lines.append(sessions_model_line(ops, ident))
+        impl.append(steps)
+        if v.sig is not None:
+            record_session_failure(ctx, ops, v)
+            st.hit("outcome", "oracle:" + v.sig)
+        tr = []
+        for op, s_ in zip(ops, steps):
+            if op["k"] == "verify":
+                mode = ("signed" if op["proof"] == "sign" and op["outer_ok"] else op["proof"] + ("" if op["outer_ok"] else "+wrong-outer-key"))
+                st.hit("op", "pair-verify")
+                st.hit("outcome", f"pair-verify/{mode}/{'verified' if s_['verified'] else 'refused'}")
+                tr.append(["v", op["c"], mode, s_["verified"], s_["sess"]["enc"]])
+            elif op["k"] == "req":
+                r = s_["resp"]
+                outc = r["code"] if r["code"] != 200 else ("err" if refp.answer_is_error(200, bytes.fromhex(r["body"])) else "ok")
+                it = lenient_items(bytes.fromhex(op["body"]))
+                st.hit("op", "session-" + {3: "add", 4: "remove", 5: "list"}.get(it[0][0] if it.get(0) else None, "malformed"))
+                st.hit("outcome", f"session-request/{'verified' if s_['sess']['enc'] else 'unverified'}-connection/{outc}")
+                tr.append(["r", op["c"], it[0][0] if it.get(0) else None, outc, len(s_["state"]["paired"])])
+            else:
+                tr.append(["s", s_["resp"]["code"]])
+        st.case(["sessions", tr], True)
+    model = run_model_parallel("C06", lines)
+    for ops, m, steps in zip(scripts, model, impl):
+        st.traces_validated += 1
+        if "steps" not in m:
+            ctx.disagree("sessions", {"ops": ops[:6]}, m, None)
+            continue
+        ms = []
+        for op, x in zip(ops, m["steps"]):
+            x = dict(x)
+            if op["k"] == "setup":
+                x["resp"] = {"code": x["resp"]["code"]}
+            ms.append(x)
+        if ms != steps:
+            j = next((k for k, (a, b) in enumerate(zip(ms, steps)) if a != b), min(len(ms), len(steps)))
+            a, b = (ms[j] if j < len(ms) else {}), (steps[j] if j < len(steps) else {})
+            field = next((f for f in ("verified", "sess", "resp", "state", "wrote", "doc") if a.get(f) != b.get(f)), "?")
+            ctx.disagree(f"sessions/{field}", {"ops": ops[: j + 1], "step": j}, a.get(field), b.get(field))
+    st.sample({"session_ops": [{k: (v_[:24] + "..." if isinstance(v_, str) and len(v_) > 24 else v_) for k, v_ in o.items()} for o in scripts[0][4:7]],
+               "impl_steps": [{k: v_ for k, v_ in s_.items() if k in ("verified", "sess", "resp")} for s_ in impl[0][4:7]],
+               "model_agrees": "steps" in model[0]})
+
+
 # ----------------------------------------------------------------------------- entry points
 
 
@@ -649,6 +929,7 @@ def run(ctx: Ctx):
             j = next((k for k, (a, b) in enumerate(zip(ms, steps)) if a != b), min(len(ms), len(steps)))
             field = next((f for f in ("resp", "state", "wrote", "doc") if j < len(ms) and j < len(steps) and ms[j][f] != steps[j][f]), "?")
             ctx.disagree(f"pairstate/{field}", {"ops": ops[: j + 1], "step": j}, ms[j][field] if j < len(ms) else None, steps[j][field] if j < len(steps) else None)
+    run_sessions(ctx)
     for k in (0, n_boundary - 1, len(scripts) - 1):
         st.sample({"ops": scripts[k][:4], "impl_steps": [{"resp": s["resp"], "pairings": len(s["state"]["paired"])} for s in impl[k][:4]],
                    "model_agrees": "steps" in model[k] and canon_model_steps(scripts[k], model[k]["steps"]) == impl[k]})
@@ -668,11 +949,35 @@ def search(ctx: Ctx):
             v = run_real(ops)[2]
             if v.sig is not None:
                 record_failure(ctx, ops, v)
+        for ops in session_boundary_scripts(ctx) + [random_session_script(ctx) for _ in range(3000)]:
+            v = run_real_sessions(ops)[2]
+            if v.sig is not None:
+                record_session_failure(ctx, ops, v)
     finally:
         ctx.tier = saved
 
 
+def replay_sessions(ctx: Ctx, r):
+    ops = r["ops"]
+    ident, steps, v, _ = run_real_sessions(ops)
+    for op, s_ in zip(ops, steps):
+        if op["k"] == "setup":
+            print(f"  pair-setup of {bytes.fromhex(op['id']).decode(errors='replace')} -> {s_['resp']}")
+        elif op["k"] == "verify":
+            claimed = bytes.fromhex(op["id"]).decode(errors="replace") if op["id"] else None
+            print(f"  connection {op['c']}: pair-verify claiming {claimed} proof={op['proof']} outer_ok={op['outer_ok']} -> "
+                  f"{'verified' if s_['verified'] else 'refused'}; handler now {s_['sess']}")
+        else:
+            print(f"  connection {op['c']}: POST /pairings body={op['body'][:40]} -> {str(s_['resp'])[:90]} ; paired={len(s_['state']['paired'])} handler {s_['sess']}")
+    if v.sig:
+        print("FAILS:", v.sig, v.desc, f"(at step {v.at})")
+    print("verdict:", "property violated on this input" if v.sig else "holds on this input")
+    return 1 if v.sig else 0
+
+
 def replay(ctx: Ctx, r):
+    if r.get("kind") == "sessions":
+        return replay_sessions(ctx, r)
     if r.get("kind") != "script":
         print("replay file records a broken proof obligation / correspondence stream, not an input:")
         print(json.dumps(r, indent=1)[:3000])
